@@ -368,7 +368,7 @@ func (e *ex) settle() int {
 	if d != 0 && !e.confirmed {
 		// a bound-dependent verdict: on a loaded machine a goroutine may need longer to exit; confirm
 		// (once per case: a tree that really leaks must not cost seconds per op)
-		d = waitLoopsFor(want, 6*time.Second) - want
+		d = waitLoopsFor(want, 3*time.Second) - want
 		e.confirmed = d != 0
 	}
 	e.slack += d
